@@ -388,14 +388,18 @@ def stdlib_internal(point):
 
 
 def critical_indices(trace):
-    """Indices of recorded events inside _send_result (until control is back in do_work) and from the first
-    _cleanup / exception-handler logging to the end of the run."""
+    """Indices of recorded events before the child has initialised itself (_init_child), inside _send_result
+    (until control is back in do_work) and from the first _cleanup / exception-handler logging to the end of the run."""
     out = set()
-    inside = None
+    inside = 'startup' if any(e.get('func') == '_init_child' for e in trace) else None
     for e in trace:
         if 'i' not in e:
             continue
         f = e.get('func')
+        if inside == 'startup' and f == '_init_child':
+            # the window between "the parent may go on" and the child having initialised itself
+            out.add(e['i'])
+            inside = None
         if f == '_send_result' and e.get('kind') == 'start':
             inside = 'send'
         elif f == '_cleanup' and e.get('kind') == 'start':
